@@ -405,6 +405,9 @@ func finish(obs *CallObs, s flows.Session, sp flows.Sprint, err error, p any, hu
 			obs.Kind = 1
 			obs.Code = ee.Code()
 			e.n(1, ee.Code())
+			if s != nil {
+				e.session(s) // the session after a rejected resume (the model says: as it was)
+			}
 		} else {
 			obs.Kind = 2
 			e.n(2)
